@@ -108,7 +108,7 @@ def load_replay(ctx):
 def finish(ctx):
     """ctx.finish, except that a --replay run must not replace the evidence of the last full run"""
     if not ctx.replay:
-        return finish(ctx)
+        return ctx.finish(exhaustive=False)
     ev = os.path.join(VERIF, "evidence", ctx.pid + ".json")
     old = open(ev).read() if os.path.exists(ev) else None
     rc = ctx.finish(exhaustive=False)
